@@ -60,6 +60,7 @@ func propC13(w *World, r *Report) {
 		}
 		RunClosureState(w, r, cffFns)
 		r.Floor("closurestate", 2)
+		RunFDSelectFill(w, r)
 	}
 	r.Rule("dicttypes: for every CFF DICT operator the Go type the writer stores (int32 / float64 / string, per operand) can carry what the reader extracts (getInt / getFloat / getString …): an operator the reader reads as a real must not be written from a float that was truncated to int32, and an operator the reader reads with getInt must not be written as a real (getInt ignores reals) || dictdefaults: where the writer omits an operator because the value equals a constant, that constant equals the default the reader substitutes || bigendian on package cff")
 	sp := w.SSAPkg[modPath+"/cff"]
@@ -75,6 +76,7 @@ func propC13(w *World, r *Report) {
 	}
 	var writes []dictWrite
 	var reads []dictRead
+	setterWrites := map[string]bool{}
 	for _, fn := range w.LibFuncs() {
 		if fnPkgPath(fn) != sp.Pkg.Path() {
 			continue
@@ -114,6 +116,13 @@ func propC13(w *World, r *Report) {
 				case *ssa.Call:
 					callee := x.Call.StaticCallee()
 					if callee == nil || callee.Signature.Recv() == nil || !strings.HasSuffix(callee.Signature.Recv().Type().String(), "cff.cffDict") {
+						continue
+					}
+					if strings.HasPrefix(callee.Name(), "set") && len(x.Call.Args) >= 2 {
+						// a setter helper (setDeltaF16, setFontMatrix) stores the operator it is given
+						if op := opName[constName(x.Call.Args[1])]; op != "" {
+							setterWrites[op] = true
+						}
 						continue
 					}
 					if !strings.HasPrefix(callee.Name(), "get") || len(x.Call.Args) < 2 {
@@ -184,6 +193,34 @@ func propC13(w *World, r *Report) {
 			}
 		}
 	}
+	// dictcover: what the reader asks a dictionary for, the writer puts there
+	{
+		written := map[string]bool{}
+		for _, wr := range writes {
+			written[wr.op] = true
+		}
+		for op := range setterWrites {
+			written[op] = true
+		}
+		var ops []string
+		firstRead := map[string]dictRead{}
+		for _, rd := range reads {
+			if _, ok := firstRead[rd.op]; !ok {
+				firstRead[rd.op] = rd
+				ops = append(ops, rd.op)
+			}
+		}
+		sort.Strings(ops)
+		for _, op := range ops {
+			key := r.MkKey("dictcover", "cff", "operator "+op+" read")
+			if written[op] {
+				r.OK("dictcover", key, w.Pos(firstRead[op].pos), "the writer stores this operator")
+			} else {
+				r.Fail("dictcover", key, w.Pos(firstRead[op].pos), fmt.Sprintf("the reader takes %s from a dictionary (%s in %s) but no writer of the package ever stores it: what the font holds for it cannot survive a write/read cycle (for a structural operator such as FDArray or CharStrings the written font is unreadable)", op, firstRead[op].getter, fnName(firstRead[op].fn)), nil)
+			}
+		}
+	}
+	r.Floor("dictcover", 25)
 	RunBigEndian(w, r, func(p string) bool { return p == sp.Pkg.Path() })
 	for _, a := range boundsAssumptions {
 		r.Assumes(a)
